@@ -132,9 +132,9 @@ def cmd_run(args):
     with open(os.path.join(VERIF, 'evidence', pid + '.json'), 'w') as f:
         json.dump(ev, f, indent=1, default=str)
     cov = ev['coverage']
-    print('%s tier=%s jobs=%d paths=%d obligations=%d discharged=%d (ground %d) violations=%d known=%d inconclusive=%d solver_s=%.1f wall_s=%.1f'
+    print('%s tier=%s jobs=%d paths=%d obligations=%d discharged=%d (ground %d) violations=%d known=%d inconclusive=%d solver_s=%.1f max_query_s=%.1f wall_s=%.1f'
           % (pid, tier, len(jobs), cov['paths'], cov['obligations'], cov['discharged'], cov['ground_obligations'], len(viol),
-             len(known_hits), len(inconc), cov['solver_s'], wall))
+             len(known_hits), len(inconc), cov['solver_s'], cov['max_query_s'], wall))
     if canaries:
         print('  canaries: ' + ', '.join('%s=%s' % (c['name'], 'killed' if c['killed'] else ('skipped' if c['skipped'] else 'MISSED')) for c in canaries))
     if viol:
@@ -197,6 +197,8 @@ def build_evidence(mod, pid, tier, seed, results, canaries, viol, known_hits, in
         automatic_domain_assumptions=sum(r['domain_assumptions'] for r in results),
         queries=sum(r['queries'] for r in results),
         solver_s=round(sum(r['solver_s'] for r in results), 2),
+        max_query_s=max([r['max_query_s'] for r in results] + [0.0]),
+        query_timeout_s=(getattr(mod, 'OPTS', {}).get('timeout', 60000)) / 1000.0,
         canaries=canaries,
         canaries_killed=sum(1 for c in canaries if c['killed']),
         evaluations=sum(r['paths'] for r in results),
